@@ -119,21 +119,27 @@ Definition krank (c : char) : N :=
 
 Definition kfill : N := 1%N.
 
+(* lexicographic comparison of two lists, the shorter one padded with [d] *)
+Section PadLex.
+  Context {A : Type} (cmp : A -> A -> comparison) (d : A).
+  Fixpoint plex (l1 l2 : list A) {struct l1} : comparison :=
+    match l1 with
+    | [] =>
+        (fix on2 (l2 : list A) : comparison :=
+           match l2 with
+           | [] => Eq
+           | y :: l2' => match cmp d y with Eq => on2 l2' | c => c end
+           end) l2
+    | x :: l1' =>
+        match l2 with
+        | [] => match cmp x d with Eq => plex l1' [] | c => c end
+        | y :: l2' => match cmp x y with Eq => plex l1' l2' | c => c end
+        end
+    end.
+End PadLex.
+
 (* compare two rank lists padded with the filler *)
-Fixpoint cmp_ranklist (p1 p2 : list N) {struct p1} : comparison :=
-  match p1 with
-  | [] =>
-      (fix on2 (p2 : list N) : comparison :=
-         match p2 with
-         | [] => Eq
-         | r2 :: p2' => match (kfill ?= r2)%N with Eq => on2 p2' | c => c end
-         end) p2
-  | r1 :: p1' =>
-      match p2 with
-      | [] => match (r1 ?= kfill)%N with Eq => cmp_ranklist p1' [] | c => c end
-      | r2 :: p2' => match (r1 ?= r2)%N with Eq => cmp_ranklist p1' p2' | c => c end
-      end
-  end.
+Definition cmp_ranklist : list N -> list N -> comparison := plex N.compare kfill.
 
 Definition block := (list N * N)%type.
 
@@ -176,20 +182,7 @@ Definition cmp_block (b1 b2 : block) : comparison :=
 Definition empty_block : block := ([], 0%N).
 
 (* lexicographic, the shorter key padded with empty blocks *)
-Fixpoint cmp_key (k1 k2 : list block) {struct k1} : comparison :=
-  match k1 with
-  | [] =>
-      (fix on2 (k2 : list block) : comparison :=
-         match k2 with
-         | [] => Eq
-         | b2 :: k2' => match cmp_block empty_block b2 with Eq => on2 k2' | c => c end
-         end) k2
-  | b1 :: k1' =>
-      match k2 with
-      | [] => match cmp_block b1 empty_block with Eq => cmp_key k1' [] | c => c end
-      | b2 :: k2' => match cmp_block b1 b2 with Eq => cmp_key k1' k2' | c => c end
-      end
-  end.
+Definition cmp_key : list block -> list block -> comparison := plex cmp_block empty_block.
 
 Definition Z_of_cmp (c : comparison) : Z :=
   match c with Lt => -1 | Eq => 0 | Gt => 1 end.
